@@ -74,38 +74,48 @@ void AppendDomain(util::Serializer &dump, const std::string domain)
     dump << uint8_t(0);
 }
 
+//! 解析域名时最多允许跟随的压缩指针个数，防止指针成环或过长的指针链耗尽栈
+const int kMaxCompressPointers = 32;
+
 /// 从缓冲中提取domain，与AppendDomain()相反
-std::string FetchDomain(util::Deserializer &parser)
+/**
+ * \return  false   数据不完整，或压缩指针越界、成环
+ */
+bool FetchDomain(util::Deserializer &parser, std::string &domain, int pointer_count = 0)
 {
-    std::ostringstream oss;
-    bool first = true;
     for (;;) {
         uint8_t len = 0;
-        parser >> len;
-        if (len == 0)
-            break;
+        if (!parser.fetch(len))
+            return false;
 
-        if (!first)
-            oss << '.';
-        first = false;
+        if (len == 0)
+            return true;
 
         //! 处理压缩的字串
         if ((len & 0xc0) == 0xc0) {
             uint8_t offset_low = 0;
-            parser >> offset_low;
+            if (!parser.fetch(offset_low))
+                return false;
+
+            if (pointer_count >= kMaxCompressPointers)
+                return false;
+
             uint16_t offset = (len & 0x3f) << 8 | offset_low;
             util::Deserializer sub_parser(parser);
-            sub_parser.set_pos(offset);
-            oss << FetchDomain(sub_parser);
-            break;
-        } else {
-            char str[len + 1];
-            parser.fetch(str, len);
-            str[len] = '\0';
-            oss << str;
+            if (!sub_parser.set_pos(offset))
+                return false;
+
+            return FetchDomain(sub_parser, domain, pointer_count + 1);
         }
+
+        const void *str = parser.fetchNoCopy(len);
+        if (str == nullptr)
+            return false;
+
+        if (!domain.empty())
+            domain.push_back('.');
+        domain.append(static_cast<const char*>(str), len);
     }
-    return oss.str();
 }
 
 }
@@ -240,13 +250,17 @@ void DnsRequest::onUdpRecv(const void *data_ptr, size_t data_size, const SockAdd
 
         //! 解析Question字段
         for (uint16_t i = 0; i < qd_count; ++i) {
-            FetchDomain(parser);
+            std::string qd_domain;
+            if (!FetchDomain(parser, qd_domain))
+                return;
             uint16_t dns_type, dns_class;
             parser >> dns_type >> dns_class;
         }
 
         for (uint16_t i = 0; i < an_count; ++i) {
-            FetchDomain(parser);
+            std::string an_domain;
+            if (!FetchDomain(parser, an_domain))
+                return;
             uint16_t an_type, an_class, an_len;
             uint32_t an_ttl;
             parser >> an_type >> an_class >> an_ttl >> an_len;
@@ -263,7 +277,9 @@ void DnsRequest::onUdpRecv(const void *data_ptr, size_t data_size, const SockAdd
                 result.a_vec.push_back(a);
 
             } else if (an_type == DNS_TYPE_CNAME) {
-                std::string domain = FetchDomain(parser);
+                std::string domain;
+                if (!FetchDomain(parser, domain))
+                    return;
                 CNAME cname = { an_ttl, DomainName(domain) };
                 result.cname_vec.push_back(cname);
 
